@@ -169,6 +169,9 @@ package transports
 //@   ensures [C11.pollaccept]  !overlap ==> calls((*types.HttpContext).Write) == 0 && ncalls(Transport.SetWritable, writable) == 1 && emitted(p.Transport, "ready") == 1 && before(Transport.SetWritable, 1, types.EventEmitter.Emit, 1)
 //@   callsite Transport.SetWritable#1
 //@     assert [C11.reqstored] p.req.v == ctx && $writable && ctx.Cleanup != nil
+// the listener that reports a poll connection closing early is attached before the poll becomes usable: a poll that is
+// answered at once must already find it (and its cleanup) in place
+//@     assert [C03.pollcloselistener,C11.pollcloselistener] ncalls(types.EventEmitter.Once, evt == "close" && this == ctx.EventEmitter) == 1
 // the listeners of "ready" may already have used the poll (a buffered batch is flushed synchronously): the empty send that
 // carries a pending close goes out only if writability was re-examined after the event and still holds
 //@   callsite (*polling).Send#1
@@ -420,8 +423,8 @@ package transports
 //@   dyncall callback noeffect
 //@   modifies *
 //@   ensures [C16.jsonp.scriptsafe] calls((*json.Encoder).SetEscapeHTML) == 0
-//@   ensures [C16.jsonp.literal]    calls((*json.Encoder).Encode) == 1 && arg((*json.Encoder).Encode, 1, v) == iface(ret(fmt.Stringer.String, 1)) && arg(fmt.Stringer.String, 1, this) == iface(data) && arg(json.NewEncoder, 1, w) == iface(ret(types.NewStringBufferString, 1)) && arg(types.NewStringBufferString, 1, s) == old(j.head)
-//@   ensures [C16.jsonp.wrap]       ret((*json.Encoder).Encode, 1) == nil ==> calls(Polling.DoWrite) == 1 && arg(Polling.DoWrite, 1, data) == ret(types.NewStringBufferString, 1) && arg(Polling.DoWrite, 1, ctx) == ctx && arg(Polling.DoWrite, 1, options) == options
+//@   ensures [C16.jsonp.literal,C01.jsonp.literal]    calls((*json.Encoder).Encode) == 1 && arg((*json.Encoder).Encode, 1, v) == iface(ret(fmt.Stringer.String, 1)) && arg(fmt.Stringer.String, 1, this) == iface(data) && arg(json.NewEncoder, 1, w) == iface(ret(types.NewStringBufferString, 1)) && arg(types.NewStringBufferString, 1, s) == old(j.head)
+//@   ensures [C16.jsonp.wrap,C01.jsonp.wrap]       ret((*json.Encoder).Encode, 1) == nil ==> calls(Polling.DoWrite) == 1 && arg(Polling.DoWrite, 1, data) == ret(types.NewStringBufferString, 1) && arg(Polling.DoWrite, 1, ctx) == ctx && arg(Polling.DoWrite, 1, options) == options
 //@   ensures [C16.jsonp.foot]       ret((*json.Encoder).Encode, 1) == nil ==> calls(io.StringWriter.WriteString) == 1 && arg(io.StringWriter.WriteString, 1, s) == old(j.foot) && arg(types.BufferInterface.Truncate, 1, n) == ret(types.BufferInterface.Len, 1) - 1 && before(types.BufferInterface.Truncate, 1, io.StringWriter.WriteString, 1) && before(io.StringWriter.WriteString, 1, Polling.DoWrite, 1)
 //@   ensures [C16.jsonp.fail]       ret((*json.Encoder).Encode, 1) != nil ==> calls(Polling.DoWrite) == 0 && calls((*types.HttpContext).Write) == 1 && arg((*types.HttpContext).SetStatusCode, 1, statusCode) == 500
 
